@@ -57,6 +57,10 @@ type Model struct {
 	// If that parent's watch is removed while they are still undelivered, the
 	// Watcher (which decides when it handles the notification) may report them.
 	Suppressed []SuppressedEv
+	// EndedByFs: paths whose watch ended through the filesystem since the
+	// last quiescent point; the Watcher learns of it only when it handles
+	// the notification.
+	EndedByFs map[string]bool
 }
 
 type SuppressedEv struct {
@@ -87,6 +91,13 @@ func (m *Model) ByPath(p string) *MWatch {
 		}
 	}
 	return nil
+}
+
+func (m *Model) endedByFs(w *MWatch) {
+	if m.EndedByFs == nil {
+		m.EndedByFs = map[string]bool{}
+	}
+	m.EndedByFs[w.Path] = true
 }
 
 func (m *Model) end(w *MWatch) {
@@ -143,6 +154,7 @@ func (m *Model) Feed(raws []Raw) []Ev {
 		}
 		if r.Mask&(unix.IN_IGNORED|unix.IN_UNMOUNT) != 0 {
 			m.NIgnored++
+			m.endedByFs(w)
 			m.end(w)
 			continue
 		}
@@ -161,6 +173,7 @@ func (m *Model) Feed(raws []Raw) []Ev {
 		}
 		if r.Mask&unix.IN_DELETE_SELF != 0 {
 			m.NDeleteSelf++
+			m.endedByFs(w)
 			m.end(w) // the kernel drops the watch by itself
 			// "reporting Remove unless the watched parent directory already
 			// did": for a file the parent's IN_DELETE comes first, for a
@@ -191,6 +204,7 @@ func (m *Model) Feed(raws []Raw) []Ev {
 		}
 		if r.Mask&unix.IN_MOVE_SELF != 0 {
 			m.NMoveSelf++
+			m.endedByFs(w)
 			m.end(w)
 			m.Sh.Rm(w.Swd) // "that watch reports nothing further"
 		}
